@@ -166,7 +166,7 @@ D_ = "internal/trigger/api/iteration_distribution.go"
 add("c12-eval-every-subtick", ["C12"], D_,
     "\t\tif remainingSteps == 0 {\n\t\t\tremainingRate = rateFn(time)\n\t\t\tremainingSteps = tickSteps\n\t\t}",
     "\t\tremainingRate = rateFn(time)\n\t\tif remainingSteps == 0 {\n\t\t\tremainingSteps = tickSteps\n\t\t}")
-add("c12-no-last-step-arm", ["C12"], D_, "\t\tif remainingSteps == 1 || remainingRate == 0 {", "\t\tif remainingRate == 0 {")
+add("c12-no-last-step-arm", ["C12"], D_, "\t\tif remainingSteps == 1 || remainingRate <= 0 {", "\t\tif remainingRate <= 0 {")
 add("c12-no-clamp", ["C12"], D_,
     "\t\t\tcurrentRate = randFn(remainingRate)\n\n\t\t\tif currentRate > remainingRate {\n\t\t\t\tcurrentRate = remainingRate\n\t\t\t}\n", "\t\t\tcurrentRate = randFn(remainingRate)\n")
 add("c12-none-returns-100ms", ["C12"], D_,
@@ -259,6 +259,13 @@ add("fix-revert-c14-users-concurrency", ["C14"], "internal/trigger/file/file_par
     "\tif *s.Concurrency < 1 {\n\t\treturn nil, fmt.Errorf(\"users %d can't be less than 1 at stage %d\", *s.Concurrency, idx)\n\t}\n", "")
 add("fix-revert-c14-negative-stage-target", ["C14"], "internal/trigger/staged/stage.go",
     "\t\tif target < 0 {\n\t\t\treturn nil, fmt.Errorf(\"target %s in stage %d can't be negative: %s\", stageElement[1], i, stageElements)\n\t\t}\n", "")
+add("fix-revert-c14-random-bound", ["C14"], D_, "\t\tif remainingSteps == 1 || remainingRate <= 0 {", "\t\tif remainingSteps == 1 || remainingRate == 0 {")
+add("fix-revert-c11-covered-region", ["C11", "C14"], "internal/trigger/gaussian/gaussian_rate.go",
+    "\tif coveredRegion <= 0 {\n\t\treturn nil, fmt.Errorf(\n\t\t\t\"the distribution does not cover the repeat window %s (it must be longer than the iteration frequency %s)\",\n\t\t\trepeatWindow, frequency,\n\t\t)\n\t}\n", "")
+add("fix-revert-c11-negative-volume", ["C11", "C14"], "internal/trigger/gaussian/gaussian_rate.go",
+    "\tif volume < 0 {\n\t\treturn nil, fmt.Errorf(\"volume %v must not be negative\", volume)\n\t}\n\n", "")
+add("fix-revert-c11-zero-weights", ["C11", "C14"], "internal/trigger/gaussian/gaussian_rate.go",
+    "\t\tif averageWeight <= 0 {\n\t\t\treturn nil, errors.New(\"at least one weight must be positive\")\n\t\t}\n", "\t\t_ = errors.New\n")
 add("fix-revert-c02-phantom-drops", ["C02"], W + "trigger_pool.go",
     "\tif p.manager.MaxIterationsReached() {\n\t\treturn\n\t}\n", "")
 add("fix-revert-c05-users-bare-wait", ["C05"], "internal/trigger/users/users_rate.go",
